@@ -142,6 +142,9 @@ class MindsDBParser(Parser):
     def create_skill(self, p):
         params = p.kw_parameter_list
 
+        if 'type' not in params:
+            raise ParsingException('TYPE is required for CREATE SKILL')
+
         return CreateSkill(
             name=p.identifier,
             type=params.pop('type'),
